@@ -2,8 +2,9 @@
 
 Decided: where the new sequence number comes from and how it reaches the share,
 the tuple shape that makes `sorted(verinfos)[-1]` the highest sequence number,
-the completion predicate of the MODE_READ servermap update, and the
-conservation of the pool of servers still to be asked (DESIGN.md section 5, C11)."""
+the completion predicate of the MODE_READ servermap update, the
+conservation of the pool of servers still to be asked, and that the servermap's record of
+observed shares only grows (DESIGN.md section 5, C11)."""
 from sa.h import *
 from sa.cfg import reaching_defs
 
@@ -19,7 +20,11 @@ EXPLANATION = (
     "index 1 (and k where recoverable_versions() reads it), _make_verinfo_hashable keeps the positions, the read "
     "proxy's seqnum is the header field the writer packed it into; best_recoverable_version() is the last element "
     "of the plainly sorted recoverable versions (or their max); a version counts as recoverable only with >= k "
-    "distinct share numbers; best_recoverable_version() answers None only on the branch where the recoverable "
+    "distinct share numbers (unrecoverable: < k) - whether recoverable_versions()/unrecoverable_versions() walk the "
+    "version map themselves (loop or comprehension) or derive their answer from shares_available(), in which case the "
+    "count shares_available() files per version must be the number of distinct share numbers (a set of share numbers, "
+    "built by a comprehension or filled by a loop that adds the share number of every placement and is reset per "
+    "version), not the number of (shnum, server, timestamp) placements; best_recoverable_version() answers None only on the branch where the recoverable "
     "versions were found empty; an unrequested read version is best_recoverable_version(); (3) in MODE_READ, "
     "ServermapUpdater._check_for_done reaches _done() only when no query is outstanding and no server is left, or "
     "after the query quota is met, a recoverable version exists, and the loop over unrecoverable_versions() ran to "
@@ -34,16 +39,27 @@ EXPLANATION = (
     "the callers the collection is returned to; the pool is not emptied on such a path; every other way of taking "
     "servers out of the pool (slicing, del, remove, aliasing) is reported as not analysable; _do_query reads from "
     "the server it was given and that server is registered in _queries_outstanding (by _do_query or by every "
-    "caller), and _queries_outstanding is re-bound only before the first query is sent. "
+    "caller), and _queries_outstanding is re-bound only before the first query is sent; (5) what a survey observed "
+    "is not forgotten: every use of ServerMap._known_shares in the package (directly, through a local alias, through "
+    "the accessor that returns the dict and its callers) either reads/enters, or removes a single key that the same "
+    "function files in _bad_shares on every path through the removal; the dict is bound only empty in __init__ or as "
+    "a whole copy into a map constructed on the spot; the failure handlers registered on the share query's Deferred "
+    "in _do_query reach (through self.* and self._servermap.* calls) no function that removes entries or re-binds "
+    "the dict - an unreachable server's shares stay observed, so highest_seqnum() cannot fall below a seen seqnum. "
     "Undecided: which servers hold which shares, arrival order of answers, RSA/hash strength; that "
     "_send_more_queries sends at least one query when it is below its limit and the pool is not empty (its loop "
     "arithmetic) and that an updater which merely stops with the query quota unmet is re-triggered (liveness); the "
     "MODE_WRITE/MODE_CHECK completion policies and the full-survey modes' emptying of the pool (the property is "
     "relative to what the survey observed); that a server is removed from _queries_outstanding only after its answer "
-    "was processed; the values stored in the header fields other than seqnum.")
+    "was processed; the values stored in the header fields other than seqnum; whether the callers of mark_bad_share "
+    "(share validation in the updater, Retrieve) call it only for shares that really are bad; overwriting an entry "
+    "of _known_shares with a different version (add_new_share does so by design).")
 TECHNIQUE = ("static analysis: polynomial normal form of the seqnum formula, who-may-write, tuple-shape agreement "
              "across producers/consumers, CFG x fact-monitor exploration of the MODE_READ completion predicate, "
-             "path-sensitive conservation (typestate) of servers leaving the query pool with method/caller summaries")
+             "path-sensitive conservation (typestate) of servers leaving the query pool with method/caller summaries, "
+             "symbolic per-version evaluation (distinct share numbers vs placements) across "
+             "shares_available()/recoverable_versions(), who-may-remove sweep over every use of _known_shares with "
+             "must-precede/must-follow pairing against _bad_shares, call-closure of the query errbacks")
 
 LAY = "mutable.layout"
 WP = LAY + ":MDMFSlotWriteProxy"
@@ -708,6 +724,484 @@ def _pool_references(idx, cg, cls, r):
     return todo
 
 
+# ---- how many shares of a version were found: distinct share numbers, not placements (C11.2) -----------
+_VER = ("ver",)                     # the version (verinfo) of the current iteration over the version map
+_SHARES = ("shares",)               # the set of (shnum, server, timestamp) placements filed under that version
+_DISTINCT = ("count", "distinct")   # number of distinct share numbers among them
+_PLACEMENTS = ("count", "placements")   # number of placements: a share number held by two servers counts twice
+_ORD_NEG = {ast.Lt: ast.GtE, ast.GtE: ast.Lt, ast.Gt: ast.LtE, ast.LtE: ast.Gt}
+_MAP_ITEMS = r"^(list\()?self\.make_versionmap\(\)\.items\(\)\)?$"
+_AVAIL_ITEMS = r"^(list\()?self\.shares_available\(\)\.items\(\)\)?$"
+
+
+def _core(s):
+    """A symbolic value without the note of which field of shares_available()'s entry it came through."""
+    while s[0] == "via":
+        s = s[2]
+    return s
+
+
+def _bind_pattern(tg, val, out):
+    """Bind the names of the assignment target `tg` to the parts of the symbolic value `val`."""
+    if isinstance(tg, ast.Name):
+        out[tg.id] = val
+        return True
+    if isinstance(tg, (ast.Tuple, ast.List)) and not any(isinstance(e, ast.Starred) for e in tg.elts):
+        c = _core(val)
+        if c[0] == "tuple" and len(c[1]) == len(tg.elts):
+            return all(_bind_pattern(t, v, out) for t, v in zip(tg.elts, c[1]))
+    return False
+
+
+class _PerVersion:
+    """Symbolic evaluation of expressions inside one iteration over the version map (or over shares_available()):
+    which expression is the version, the set of its share placements, a collection of its share numbers, a count of
+    distinct share numbers or of placements, a field of the verinfo tuple.  Locals are followed through their
+    reaching definitions, a set that is built empty and filled by a loop over the placements is recognised."""
+
+    def __init__(self, fn, sh_pos, sh_len):
+        self.fn = fn
+        self.cfg = fn.cfg()
+        self.fnm = FlowNorm(fn, depth=8)
+        self.rd = reaching_defs(self.cfg)
+        self.sh_pos, self.sh_len = sh_pos, sh_len
+        self.loop, self.bind = None, {}
+
+    def enter(self, loop, bind):
+        """`loop`: the CFG node of the for-loop over the versions (None inside a comprehension)."""
+        self.loop, self.bind = loop, dict(bind)
+
+    def _bound(self, node, name):
+        if name not in self.bind:
+            return None
+        if self.loop is not None and node is not None and \
+                self.rd.get(node.id, {}).get(name) != frozenset([self.loop.id]):
+            return None             # re-bound inside the loop body
+        return self.bind[name]
+
+    def _is_shnum(self, tg, elt):
+        """`elt` is the share number of the placement the loop / comprehension target `tg` is bound to."""
+        if isinstance(tg, (ast.Tuple, ast.List)) and len(tg.elts) == self.sh_len \
+                and all(isinstance(e, ast.Name) for e in tg.elts):
+            return isinstance(elt, ast.Name) and elt.id == tg.elts[self.sh_pos].id \
+                and [e.id for e in tg.elts].count(elt.id) == 1
+        if isinstance(tg, ast.Name):
+            return isinstance(elt, ast.Subscript) and isinstance(elt.value, ast.Name) and elt.value.id == tg.id \
+                and isinstance(elt.slice, ast.Constant) and elt.slice.value == self.sh_pos \
+                and not isinstance(elt.slice.value, bool)
+        return False
+
+    def sym(self, node, e, depth=12):
+        if depth <= 0:
+            return ("opaque", "...")
+        if isinstance(e, ast.Name):
+            b = self._bound(node, e.id)
+            if b is not None:
+                return b
+            if node is not None:
+                acc = self._filled(node, e.id)
+                if acc is not None:
+                    return acc
+                d = self.fnm.env_at(node).defs.get(e.id)
+                if d is None:
+                    d = self._comprehension_def(node, e.id)
+                if d is not None:
+                    return self.sym(node, d, depth - 1)
+            return ("opaque", e.id)
+        if isinstance(e, ast.Tuple):
+            return ("tuple", tuple(self.sym(node, x, depth - 1) for x in e.elts))
+        if isinstance(e, ast.Subscript):
+            i = e.slice.value if isinstance(e.slice, ast.Constant) and isinstance(e.slice.value, int) \
+                and not isinstance(e.slice.value, bool) else None
+            c = _core(self.sym(node, e.value, depth - 1))
+            if i is not None and i >= 0:
+                if c == _VER:
+                    return ("verfield", i)
+                if c[0] == "tuple" and i < len(c[1]):
+                    return c[1][i]
+            return ("opaque", norm_plain(e))
+        if isinstance(e, ast.Call) and isinstance(e.func, ast.Name) and len(e.args) == 1 and not e.keywords \
+                and not isinstance(e.args[0], ast.Starred):
+            a = _core(self.sym(node, e.args[0], depth - 1))
+            f = e.func.id
+            if f == "len":
+                if a == ("shnums", "set"):
+                    return _DISTINCT
+                if a == ("shnums", "list") or a == _SHARES:
+                    return _PLACEMENTS
+            elif f in ("set", "frozenset"):
+                if a[0] == "shnums":
+                    return ("shnums", "set")
+                if a == _SHARES:
+                    return _SHARES
+            elif f in ("list", "tuple", "sorted"):
+                if a[0] == "shnums" or a == _SHARES:
+                    return a
+            return ("opaque", norm_plain(e))
+        if isinstance(e, (ast.ListComp, ast.SetComp, ast.GeneratorExp)) and len(e.generators) == 1:
+            g = e.generators[0]
+            if not g.ifs and not g.is_async and _core(self.sym(node, g.iter, depth - 1)) == _SHARES \
+                    and self._is_shnum(g.target, e.elt):
+                return ("shnums", "set" if isinstance(e, ast.SetComp) else "list")
+        return ("opaque", norm_plain(e))
+
+    def _comprehension_def(self, node, name):
+        """The comprehension a local was bound to (the flow normaliser does not substitute display values), when
+        that is its only reaching definition and no method is ever called on the local."""
+        ds = self.rd.get(node.id, {}).get(name)
+        if not ds or len(ds) != 1 or min(ds) < 0:
+            return None
+        v = assign_value(self.cfg.nodes[min(ds)], name)
+        if not isinstance(v, (ast.ListComp, ast.SetComp)):
+            return None
+        for m in self.cfg.nodes:
+            for c in node_calls(m):
+                if isinstance(c.func, ast.Attribute) and isinstance(c.func.value, ast.Name) and c.func.value.id == name:
+                    return None
+        return v
+
+    def _filled(self, node, name):
+        """`name` holds, at `node`, a set (list) that was created empty in this iteration and then filled by one loop
+        over the version's placements that adds (appends) the share number of every element -> ("shnums", kind);
+        an empty collection filled in any other way -> opaque; anything else -> None."""
+        ds = self.rd.get(node.id, {}).get(name)
+        if not ds or len(ds) != 1 or min(ds) < 0:
+            return None
+        dn = self.cfg.nodes[min(ds)]
+        v = assign_value(dn, name)
+        if isinstance(v, ast.Call) and isinstance(v.func, ast.Name) and v.func.id in ("set", "list") \
+                and not v.args and not v.keywords:
+            kind = v.func.id
+        elif isinstance(v, ast.List) and not v.elts:
+            kind = "list"
+        else:
+            return None
+        bad = ("opaque", "'%s', not filled with the share number of every placement" % name)
+        fills = [(m, c) for m in self.cfg.nodes for c in node_calls(m)
+                 if isinstance(c.func, ast.Attribute) and isinstance(c.func.value, ast.Name) and c.func.value.id == name
+                 and dn.id in (self.rd.get(m.id, {}).get(name) or ())]
+        if not fills:
+            return bad
+        inner = None
+        for (m, c) in fills:
+            if c.func.attr != ("add" if kind == "set" else "append") or len(c.args) != 1 or c.keywords:
+                return bad
+            x = c.args[0]
+            xn = x if isinstance(x, ast.Name) else (x.value if isinstance(x, ast.Subscript) else None)
+            if not isinstance(xn, ast.Name):
+                return bad
+            src_ = self.rd.get(m.id, {}).get(xn.id) or ()
+            if len(src_) != 1 or min(src_) < 0 or self.cfg.nodes[min(src_)].kind != "iter":
+                return bad
+            lp = self.cfg.nodes[min(src_)]
+            if (inner is not None and lp is not inner) or lp is self.loop:
+                return bad
+            inner = lp
+            if not self._is_shnum(lp.ast.target, x) or _core(self.sym(lp, lp.ast.iter)) != _SHARES:
+                return bad
+        fill_ids = {m.id for (m, _c) in fills}
+
+        def tr(a, lab, nx, st):
+            if lab == "exc":
+                return None
+            if a is inner:
+                return 1 if (st == 0 and lab == "iter") else None
+            if a.id in fill_ids or a.kind in ("exit", "raise"):
+                return None
+            return 1
+        visited, _p = explore(self.cfg, 0, tr, start=inner)
+        if any(st == 1 and (i == inner.id or self.cfg.nodes[i].kind == "exit") for (i, st) in visited):
+            return bad              # an element can be passed over, or the loop left early
+        if find_path_avoiding(self.cfg, lambda x: x is node, gate_edge=lambda a, lab: a is inner and lab == "done",
+                              start=dn, skip_exc_edges=True):
+            return bad              # read before the loop has finished
+        if self.loop is not None and find_path_avoiding(self.cfg, lambda x: x is node, gate_node=lambda a: a is dn,
+                                                        start=self.loop, skip_exc_edges=True):
+            return bad              # not reset for each version
+        return ("shnums", kind)
+
+
+def _count_vs_k(pv, node, cond, pol):
+    """The ordering comparison `cond` (taken with polarity `pol`) as (rel, count side, k side), rel in '>=' '<',
+    meaning "count rel k"; None for anything else."""
+    e = cond
+    while isinstance(e, ast.UnaryOp) and isinstance(e.op, ast.Not):
+        e, pol = e.operand, not pol
+    if not (isinstance(e, ast.Compare) and len(e.ops) == 1):
+        return None
+    op = type(e.ops[0])
+    if not pol:
+        op = _ORD_NEG.get(op)
+    if op not in _ORD_NEG:
+        return None
+    l, r_ = pv.sym(node, e.left), pv.sym(node, e.comparators[0])
+    return {ast.GtE: (">=", l, r_), ast.LtE: (">=", r_, l), ast.Lt: ("<", l, r_), ast.Gt: ("<", r_, l)}[op]
+
+
+def _available_summary(idx, sh_pos, sh_len):
+    """What ServerMap.shares_available() files under each version -> (fn, storing CFG node, symbolic value); the
+    fields of a tuple value carry a note of their position."""
+    fn = idx.func(SM + ".shares_available")
+    pv = _PerVersion(fn, sh_pos, sh_len)
+    loops = [n for n in pv.cfg.nodes if n.kind == "iter" and re.match(_MAP_ITEMS, pv.fnm.norm(n, n.ast.iter))]
+    if len(loops) != 1:
+        raise AnchorVanished("shares_available: loop over the version map")
+    lp = loops[0]
+    tg = lp.ast.target
+    if not (isinstance(tg, (ast.Tuple, ast.List)) and len(tg.elts) == 2 and all(isinstance(e, ast.Name) for e in tg.elts)):
+        raise AnalysisError("%s: shares_available() no longer takes the version map apart as (version, shares)"
+                            % fn.loc(lp.ast))
+    pv.enter(lp, {tg.elts[0].id: _VER, tg.elts[1].id: _SHARES})
+    ret = _Returned(fn)
+    found = []
+    for n in pv.cfg.nodes:
+        if not ret.is_entry(n):
+            continue
+        a = n.ast
+        if not (isinstance(a, ast.Assign) and len(a.targets) == 1 and isinstance(a.targets[0], ast.Subscript)):
+            raise AnalysisError("%s: shares_available() files a version by %s; this is not followed"
+                                % (fn.loc(a), src(fn, a)))
+        if _core(pv.sym(n, a.targets[0].slice)) != _VER:
+            raise AnalysisError("%s: shares_available() files an entry under %s, not under the version"
+                                % (fn.loc(a), src(fn, a.targets[0].slice)))
+        found.append((n, pv.sym(n, a.value)))
+    if len(found) != 1:
+        raise AnchorVanished("shares_available: the one store that files a version's share count")
+    n, val = found[0]
+    if val[0] == "tuple":
+        val = ("tuple", tuple(("via", i, x) for i, x in enumerate(val[1])))
+    return (fn, n, val)
+
+
+def _recoverability(idx, r, q, want, what, iK, sh_pos, sh_len, avail, told):
+    """ServerMap.recoverable_versions() / unrecoverable_versions(): a version is collected only behind the test
+    "number of distinct share numbers `want` k", whether the function walks the version map itself or derives its
+    answer from shares_available() (then the count that shares_available() files must be the distinct one)."""
+    fn = idx.func(q)
+    pv = _PerVersion(fn, sh_pos, sh_len)
+    cfg, fnm = pv.cfg, pv.fnm
+    K = ("verfield", iK)
+
+    def source(at, it):
+        s = fnm.norm(at, it)
+        return "map" if re.match(_MAP_ITEMS, s) else ("avail" if re.match(_AVAIL_ITEMS, s) else None)
+
+    def bind_target(tg, kind, where):
+        out = {}
+        ok = isinstance(tg, (ast.Tuple, ast.List)) and len(tg.elts) == 2 and isinstance(tg.elts[0], ast.Name)
+        if ok:
+            out[tg.elts[0].id] = _VER
+            ok = _bind_pattern(tg.elts[1], _SHARES if kind == "map" else avail()[2], out) and \
+                (kind != "map" or isinstance(tg.elts[1], ast.Name))
+        if not ok:
+            raise AnalysisError("%s: %s takes the entries of %s apart as %s; this is not followed" % (
+                fn.loc(where), short(fn), "the version map" if kind == "map" else "shares_available()", src(fn, tg)))
+        return out
+
+    def right(f):
+        return f is not None and f[0] == want and _core(f[1]) == _DISTINCT and _core(f[2]) == K
+
+    def report(where, facts, w=None):
+        """No test "distinct shares `want` k" guards the version collected at `where`."""
+        for (c, f) in facts:
+            if f is None or _core(f[1]) != _PLACEMENTS or K not in (_core(f[2]),):
+                continue
+            if f[1][0] == "via":
+                (afn, an, _v) = avail()
+                if afn.qual not in told:
+                    told.add(afn.qual)
+                    ent = an.ast.value.elts[f[1][1]] if isinstance(an.ast.value, ast.Tuple) else an.ast.value
+                    r.violation(afn, afn.loc(an.ast), "shares_available() files %s - the number of share placements "
+                                "(shnum, server, timestamp), in which a share number held by two servers counts twice - "
+                                "as the share count of a version, and %s decides '%s' by comparing that count with k: a "
+                                "version with fewer than k distinct shares passes for recoverable, so "
+                                "best_recoverable_version() and the MODE_READ completion test settle on a version that "
+                                "cannot be read" % (src(afn, ent), short(fn), what))
+                return
+            r.violation(fn, fn.loc(c), "%s compares %s - the number of share placements, in which a share number held "
+                        "by two servers counts twice - with k: a version is reported %s without k distinct share "
+                        "numbers being known" % (short(fn), src(fn, c), what), w)
+            return
+        seen = ", ".join(src(fn, c) for (c, f) in facts if f is not None)
+        r.violation(fn, fn.loc(where), "a version is reported %s without comparing its number of distinct shares "
+                    "with k = verinfo[%d]%s%s" % (what, iK, " (tests seen: %s)" % seen if seen else "",
+                                                  " (path: %s)" % w.brief() if w is not None else ""), w)
+
+    # -- (b) the answer is one comprehension over the version map / over shares_available()
+    comps = []
+    for n in cfg.nodes:
+        if not is_return(n) or n.ast.value is None:
+            continue
+        v = fnm.resolve(n, n.ast.value)
+        if isinstance(v, ast.Call) and isinstance(v.func, ast.Name) and v.func.id in ("set", "frozenset", "list", "tuple") \
+                and len(v.args) == 1 and not v.keywords:
+            v = fnm.resolve(n, v.args[0])
+        comps.append((n, v if isinstance(v, (ast.ListComp, ast.SetComp, ast.GeneratorExp)) else None))
+    if comps and all(c is not None for (_n, c) in comps):
+        for (n, comp) in comps:
+            r.site(fn, comp, what)
+            if len(comp.generators) != 1 or comp.generators[0].is_async:
+                raise AnalysisError("%s: %s builds its answer from nested comprehensions; this is not followed"
+                                    % (fn.loc(comp), short(fn)))
+            g = comp.generators[0]
+            kind = source(n, g.iter)
+            if kind is None:
+                r.violation(fn, fn.loc(comp), "%s does not iterate over the whole version map" % short(fn))
+                continue
+            pv.enter(None, bind_target(g.target, kind, comp))
+            r.require(_core(pv.sym(n, comp.elt)) == _VER, fn, fn.loc(comp.elt),
+                      "%s collects %s instead of the version it tested" % (short(fn), src(fn, comp.elt)))
+            conds = []
+            for c in g.ifs:
+                conds.extend(c.values if isinstance(c, ast.BoolOp) and isinstance(c.op, ast.And) else [c])
+            facts = [(c, _count_vs_k(pv, n, c, True)) for c in conds]
+            if not any(right(f) for (_c, f) in facts):
+                report(comp, facts)
+                continue
+            for (c, f) in facts:
+                if not right(f):
+                    r.violation(fn, fn.loc(c), "%s leaves out versions by the further condition %s: a version with "
+                                "its shares located is then neither recoverable nor unrecoverable for the reader"
+                                % (short(fn), src(fn, c)))
+        return
+
+    # -- (a) a loop over the version map / over shares_available() that collects the versions passing the test
+    cands = [n for n in cfg.nodes if n.kind == "iter" and isinstance(n.ast.target, (ast.Tuple, ast.List))
+             and len(n.ast.target.elts) == 2]
+    loops = [n for n in cands if source(n, n.ast.iter) is not None]
+    if len(loops) != 1:
+        if len(cands) == 1 and not loops:
+            r.site(fn, cands[0].ast, what)
+            r.violation(fn, fn.loc(cands[0].ast), "%s does not iterate over the whole version map" % short(fn))
+            return
+        raise AnchorVanished("%s: loop over the version map" % q)
+    lp = loops[0]
+    ret = _Returned(fn)
+    adds = [(n, c) for n in cfg.nodes for c in ret.entry_calls(n, ("add",))]
+    if not adds:
+        raise AnchorVanished("%s no longer collects versions with .add" % q)
+    pv.enter(lp, bind_target(lp.ast.target, source(lp, lp.ast.iter), lp.ast))
+    for (n, c) in adds:
+        r.site(fn, n.ast, what)
+        r.require(len(c.args) == 1 and _core(pv.sym(n, c.args[0])) == _VER, fn, fn.loc(c),
+                  "%s collects %s instead of the version it tested" % (short(fn), src(fn, c)))
+    add_nodes = [n for (n, _c) in adds]
+
+    def gate(a, lab):
+        return a.kind == "test" and isinstance(lab, tuple) and right(_count_vs_k(pv, a, a.ast, lab[0] == "T"))
+    bad = find_path_avoiding(cfg, lambda x: x in add_nodes, gate_edge=gate, kill=lambda m: m is lp)
+    if bad:
+        facts = [(a.ast, _count_vs_k(pv, a, a.ast, True)) for a in cfg.nodes if a.kind == "test"]
+        for (t, w) in bad:
+            report(t.ast, facts, w)
+
+
+# ---- the survey's record of observed shares only grows (C11.5) ----------------------------------------
+KNOWN = "_known_shares"
+BAD = "_bad_shares"
+_KS_READS = ("items", "keys", "values", "get", "copy", "setdefault", "update")      # none of these removes an entry
+_KS_REMOVES = ("pop", "popitem", "clear")
+_KS_BUILTIN_READS = _READ_ONLY + ("dict", "min", "max", "sum")
+
+
+class _Parents:
+    def __init__(self):
+        self.maps = {}
+
+    def of(self, fn, node):
+        pm = self.maps.get(fn.qual)
+        if pm is None:
+            pm = self.maps[fn.qual] = {}
+            for p_ in ast.walk(fn.node):
+                for c_ in ast.iter_child_nodes(p_):
+                    pm[id(c_)] = p_
+        return pm.get(id(node))
+
+
+def _dict_use(fn, nd, parents):
+    """How the expression `nd`, which denotes the dict of known shares, is used -> (kind, node) with kind in
+    read / remove / returned / alias / unknown."""
+    par = parents.of(fn, nd)
+    if isinstance(par, ast.Attribute) and par.value is nd:
+        gp = parents.of(fn, par)
+        if isinstance(gp, ast.Call) and gp.func is par:
+            if par.attr in _KS_READS:
+                return ("read", gp)
+            if par.attr in _KS_REMOVES:
+                return ("remove", gp)
+        return ("unknown", gp if gp is not None else par)
+    if isinstance(par, ast.Subscript) and par.value is nd:
+        return ("remove", par) if isinstance(par.ctx, ast.Del) else ("read", par)
+    if isinstance(par, ast.Call) and isinstance(par.func, ast.Name) and par.func.id in _KS_BUILTIN_READS \
+            and any(a is nd for a in par.args):
+        return ("read", par)
+    if isinstance(par, (ast.For, ast.comprehension)) and par.iter is nd:
+        return ("read", par)
+    if isinstance(par, (ast.Compare, ast.BoolOp)) or (isinstance(par, ast.UnaryOp) and isinstance(par.op, ast.Not)):
+        return ("read", par)
+    if isinstance(par, (ast.If, ast.While, ast.IfExp, ast.Assert)) and par.test is nd:
+        return ("read", par)
+    if isinstance(par, ast.Return):
+        return ("returned", par)
+    if isinstance(par, ast.Assign) and par.value is nd and len(par.targets) == 1 and isinstance(par.targets[0], ast.Name):
+        return ("alias", par)
+    return ("unknown", par if par is not None else nd)
+
+
+def _known_share_uses(idx, cg, r, parents):
+    """Every way the package touches a servermap's _known_shares (directly, through a local alias, through an
+    accessor that returns the dict).  -> [(fn, ast node)] of the places that can take an entry out."""
+    removals = []
+    seen_fn = set()
+
+    def follow(fn, nd, depth):
+        (kind, at) = _dict_use(fn, nd, parents)
+        if kind == "read":
+            return
+        if kind == "remove":
+            removals.append((fn, at))
+            return
+        if kind == "alias" and depth < 3:
+            nm = at.targets[0].id
+            if len(all_defs(fn).get(nm, [])) != 1 or nm in fn.params:
+                raise AnalysisError("%s: '%s' is bound to the servermap's record of observed shares and to something "
+                                    "else; this is not followed" % (fn.loc(at), nm))
+            for x in ast.walk(fn.node):
+                if isinstance(x, ast.Name) and x.id == nm and isinstance(x.ctx, (ast.Load, ast.Del)):
+                    follow(fn, x, depth + 1)
+            return
+        if kind == "returned" and depth < 3 and fn.cls is not None and fn.name not in seen_fn:
+            seen_fn.add(fn.name)
+            r.site(fn, at, "accessor hands out the record of observed shares")
+            if cg.refs_named(fn.name):
+                raise AnalysisError("%s hands out the servermap's record of observed shares and is passed around as a "
+                                    "value; its users cannot be followed" % short(fn))
+            for cs in cg.calls_named(fn.name):
+                r.site(cs.fn, cs.call, "user of the record of observed shares")
+                follow(cs.fn, cs.call, depth + 1)
+            return
+        if kind == "returned" and fn.name in seen_fn:
+            return
+        raise AnalysisError("%s: the servermap's record of observed shares (%s) is used by %s; this is not followed"
+                            % (fn.loc(at), KNOWN, src(fn, at)))
+
+    for (fn, nd) in cg.refs_named(KNOWN):
+        if isinstance(nd, ast.Attribute):
+            follow(fn, nd, 0)
+    return removals
+
+
+def _whole_dict_copy(e):
+    """X when `e` is X.copy() / dict(X) / copy.copy(X) / copy.deepcopy(X)"""
+    if isinstance(e, ast.Call) and not e.keywords:
+        if isinstance(e.func, ast.Attribute) and e.func.attr == "copy" and not e.args:
+            return e.func.value
+        if call_name(e) in ("dict", "copy.copy", "copy.deepcopy") and len(e.args) == 1 \
+                and not isinstance(e.args[0], ast.Starred):
+            return e.args[0]
+    return None
+
+
 def run(ctx: Context):
     idx = ctx.idx
     cg = get_callgraph(idx)
@@ -845,45 +1339,23 @@ def run(ctx: Context):
                             sh_pos = ps[0]
         if sh_pos is None:
             raise AnchorVanished("make_versionmap: position of the share number in the per-version tuples")
-        for q, want_op, what in ((SM + ".recoverable_versions", "<=", "recoverable"),
-                                 (SM + ".unrecoverable_versions", "<", "unrecoverable")):
-            fn = idx.func(q)
-            fnm = FlowNorm(fn, depth=8)
-            cfg = fn.cfg()
-            adds = [n for n in cfg.nodes if any(call_tail(c) == "add" for c in node_calls(n))]
-            if not adds:
-                raise AnchorVanished("%s no longer collects versions with .add" % q)
-            loops = [n for n in cfg.nodes if n.kind == "iter" and isinstance(n.ast.target, ast.Tuple)
-                     and len(n.ast.target.elts) == 2]
-            if len(loops) != 1:
-                raise AnchorVanished("%s: loop over the version map" % q)
-            vname, sname = [attr_path(e) for e in loops[0].ast.target.elts]
-            r.require(re.match(r"^(list\()?self\.make_versionmap\(\)\.items\(\)\)?$", fnm.norm(loops[0], loops[0].ast.iter))
-                      is not None, fn, fn.loc(loops[0].ast), "%s does not iterate over the whole version map" % short(fn))
+        sh_len = None
+        for lp in [n for n in mv.cfg().nodes if n.kind == "iter"]:
+            for c in calls_in_func(mv, "add"):
+                if len(c.args) == 2 and isinstance(c.args[1], ast.Tuple) and sh_pos < len(c.args[1].elts):
+                    sh_len = len(c.args[1].elts)
+        if sh_len is None:
+            raise AnchorVanished("make_versionmap: shape of the per-version placement tuples")
+        avail_memo = []
 
-            def counted(s, _s=sname):
-                m = re.match(r"^len\(set\(\[(\w+) for (.+) in %s\]\)\)$" % re.escape(_s), s) or \
-                    re.match(r"^len\(\{(\w+) for (.+) in %s\}\)$" % re.escape(_s), s)
-                if not m:
-                    return False
-                names = [x.strip() for x in m.group(2).strip("()").split(",") if x.strip()]
-                return len(names) > sh_pos and names[sh_pos] == m.group(1)
-
-            def gate(a, lab, _op=want_op, _v=vname):
-                f = fnm.edge_fact(a, lab)
-                if not f or f[0] != _op:
-                    return False
-                kexpr = "%s[%d]" % (_v, iK)
-                return (f[1] == kexpr and counted(f[2])) if _op == "<=" else (f[2] == kexpr and counted(f[1]))
-            for n in adds:
-                r.site(fn, n.ast, what)
-                c = [c for c in node_calls(n) if call_tail(c) == "add"][0]
-                r.require(len(c.args) == 1 and attr_path(c.args[0]) == vname, fn, fn.loc(c),
-                          "%s collects %s instead of the version it tested" % (short(fn), src(fn, c)))
-            for (t, w) in find_path_avoiding(cfg, lambda x: x in adds, gate_edge=gate,
-                                             kill=lambda m: m.kind == "iter"):
-                r.violation(fn, fn.loc(t.ast), "a version is reported %s without comparing its number of distinct "
-                            "shares with k = verinfo[%d] (path: %s)" % (what, iK, w.brief()), w)
+        def avail():
+            if not avail_memo:
+                avail_memo.append(_available_summary(idx, sh_pos, sh_len))
+            return avail_memo[0]
+        told = set()
+        for q, want, what in ((SM + ".recoverable_versions", ">=", "recoverable"),
+                              (SM + ".unrecoverable_versions", "<", "unrecoverable")):
+            _recoverability(idx, r, q, want, what, iK, sh_pos, sh_len, avail, told)
         # a read that names no version takes the best recoverable one
         gv = idx.func(MFN + "._get_version_from_servermap._get_version")
         gps = first_positional_params(gv)
@@ -1332,3 +1804,134 @@ def run(ctx: Context):
                     r.violation(f, f.loc(at.ast), "%s is re-bound after %s: the servers already being asked are "
                                 "forgotten" % (OUT, src(f, s.ast)))
                     break
+
+    # ---- 5. what a survey has observed is not forgotten ---------------------------------
+    with ctx.rule("C11.5", "R6", "ServerMap._known_shares only grows: an entry is taken out only where the same key is "
+                  "filed as a bad share, the dict is bound only empty in __init__ or as a whole copy into a fresh map, and "
+                  "the failure handlers of a share query reach no code that removes entries", expected=10) as r:
+        parents = _Parents()
+        smc = idx.cls(SM)
+        ucls = idx.cls(SMU)
+        removals = _known_share_uses(idx, cg, r, parents)
+        forgetful = {}                # qual -> (fn, what it does)
+        # (a) a single entry leaves only together with its registration as a bad share, under the same key
+        for (fn, at) in removals:
+            forgetful[fn.qual] = (fn, "removes entries (%s)" % src(fn, at))
+            r.site(fn, at, "entry removed")
+            key = base = None
+            if isinstance(at, ast.Subscript):
+                key, base = at.slice, at.value
+            elif isinstance(at, ast.Call) and at.func.attr == "pop" and at.args and not isinstance(at.args[0], ast.Starred):
+                key, base = at.args[0], at.func.value
+            holder = attr_path(base.value) if isinstance(base, ast.Attribute) and base.attr == KNOWN else None
+            ok = key is not None and holder is not None and not isinstance(key, ast.Slice)
+            if ok:
+                fnm = FlowNorm(fn, depth=8)
+                rm = _node_of(fn, at)
+                want = fnm.norm(rm, key)
+
+                def files(n, _f=fnm, _w=want, _h=holder):
+                    return isinstance(n.ast, ast.Assign) and any(
+                        isinstance(t, ast.Subscript) and attr_path(t.value) == "%s.%s" % (_h, BAD)
+                        and _f.norm(n, t.slice) == _w for t in n.ast.targets)
+                ok = not find_path_avoiding(fn.cfg(), lambda x, _rm=rm: x is _rm, gate_node=files, skip_exc_edges=True) \
+                    or not find_path_from_to_avoiding(fn.cfg(), lambda x, _rm=rm: x is _rm, files)
+            how = ("del " if isinstance(at, ast.Subscript) else "") + src(fn, at)
+            r.require(ok, fn, fn.loc(at), "%s takes entries out of the servermap's record of observed shares by %s without "
+                      "filing the same key as a bad share: the versions seen on those shares drop out of "
+                      "highest_seqnum() (and of the recoverable / unrecoverable versions), so the next publish can "
+                      "re-use a sequence number its survey had observed" % (short(fn), how))
+        # (b) the dict itself is bound only empty at construction, or as a whole copy into a map built on the spot
+        n_bound = 0
+        for (fn, nd) in cg.attr_stores(KNOWN):
+            if not isinstance(nd, ast.Attribute):
+                continue
+            n_bound += 1
+            par = parents.of(fn, nd)
+            r.site(fn, par if par is not None else nd, "record of observed shares bound")
+            v = par.value if isinstance(par, (ast.Assign, ast.AnnAssign)) and isinstance(nd.ctx, ast.Store) else None
+            ok = False
+            if v is not None:
+                empty = (isinstance(v, ast.Dict) and not v.keys) or \
+                    (isinstance(v, ast.Call) and call_name(v) == "dict" and not v.args and not v.keywords)
+                srcd = _whole_dict_copy(v)
+                if empty:
+                    ok = fn.name == "__init__" and attr_path(nd) == "self." + KNOWN
+                elif isinstance(srcd, ast.Attribute) and srcd.attr == KNOWN and isinstance(nd.value, ast.Name):
+                    defs = all_defs(fn).get(nd.value.id, [])
+                    ok = len(defs) == 1 and isinstance(defs[0], ast.Call) and nd.value.id not in fn.params \
+                        and isinstance(idx.resolve_expr(fn.module, defs[0].func), ClassInfo)
+            if not ok:
+                forgetful[fn.qual] = (fn, "re-binds the record (%s)" % src(fn, par if par is not None else nd))
+            r.require(ok, fn, fn.loc(par if par is not None else nd), "%s binds the servermap's record of observed "
+                      "shares by %s: whatever earlier surveys observed is forgotten (or shared between two maps), so "
+                      "highest_seqnum() can fall below a sequence number that was seen"
+                      % (short(fn), src(fn, par if par is not None else nd)))
+        if not n_bound:
+            raise AnchorVanished("ServerMap.%s is never bound" % KNOWN)
+        # (c) a query that fails says nothing about the shares of that server: its failure handlers reach no code
+        #     that takes entries out (an unreachable server's shares stay observed)
+        dq = idx.func(SMU + "._do_query")
+        qvars = set()
+        for n in dq.cfg().nodes:
+            if isinstance(n.ast, ast.Assign) and isinstance(n.ast.value, ast.Call) and len(n.ast.targets) == 1 \
+                    and isinstance(n.ast.targets[0], ast.Name) and any(
+                        call_name(c) == "self._do_read" for c in ast.walk(n.ast.value) if isinstance(c, ast.Call)):
+                qvars.add(n.ast.targets[0].id)
+        if len(qvars) != 1:
+            raise AnchorVanished("_do_query no longer keeps the Deferred of self._do_read(..) in one local")
+        handlers = []
+        for reg in registrations(dq, sorted(qvars)[0]):
+            t = reg.target if reg.kind in ("eb", "both") else (reg.errtarget if reg.kind == "pair" else None)
+            if t is None:
+                continue
+            h = None
+            p_ = attr_path(t)
+            if p_ and p_.startswith("self.") and p_.count(".") == 1:
+                h = ucls.lookup(p_.split(".")[1])
+                if h is None:
+                    raise AnalysisError("%s: failure handler %s of the share query cannot be resolved" % (dq.loc(t), p_))
+            elif isinstance(t, ast.Lambda):
+                h = idx.lambda_func(dq, t)
+            elif isinstance(t, ast.Name) and t.id in dq.nested:
+                h = dq.nested[t.id]
+            if h is not None:
+                handlers.append((reg, h))
+                r.site(dq, reg.call, "failure handler of a share query")
+        if not handlers:
+            raise AnchorVanished("the share query of _do_query has no failure handler of the updater")
+
+        def reached(f0):
+            seen, todo = {}, [(f0, (f0,))]
+            while todo:
+                f, chain = todo.pop()
+                if f.qual in seen or len(chain) > 8:
+                    continue
+                seen[f.qual] = chain
+                for x in ast.walk(f.node):
+                    if not isinstance(x, ast.Call):
+                        continue
+                    nm, tgt = call_name(x), None
+                    if nm.startswith("self.") and nm.count(".") == 1 and f.cls is not None:
+                        tgt = f.cls.lookup(call_tail(x))
+                    elif nm.startswith("self._servermap.") and nm.count(".") == 2 and f.cls is not None \
+                            and any(c is ucls for c in f.cls.mro()):
+                        tgt = smc.lookup(call_tail(x))
+                    elif isinstance(x.func, ast.Name):
+                        p2 = f
+                        while p2 is not None and tgt is None:
+                            tgt = p2.nested.get(x.func.id)
+                            p2 = p2.parent
+                    if tgt is not None:
+                        todo.append((tgt, chain + (tgt,)))
+            return seen
+        for (reg, h) in handlers:
+            seen = reached(h)
+            for q in sorted(seen):
+                if q in forgetful:
+                    (g, does) = forgetful[q]
+                    r.violation(h, h.loc(), "a share query that fails (handler %s registered in _do_query) reaches %s, "
+                                "which %s: a server that merely stops answering makes the servermap forget the versions "
+                                "an earlier survey saw on it, so highest_seqnum() can fall below an observed sequence "
+                                "number and the next publish re-uses it (call chain: %s)"
+                                % (short(h), short(g), does, " -> ".join(short(c) for c in seen[q])))
